@@ -67,3 +67,67 @@ fn verif_enum_calculate_range_to_fetch() {
     }
     println!("ENUM-OK cases={cases}");
 }
+
+// ---------------------------------------------------------------------------------------------
+// Worker-level witness finder for C24: Worker::fetch_next_batch called directly on random store states: one run of
+// stored headers up to the head (the store only accepts adjacent ranges, gaps arise from pruning alone), some of whose
+// heights were removed again (pruned) at the low edge, in the middle, or not at all; the network head at or above the
+// stored head. The scheduled range (ongoing_batch.range) is compared with the batch the property asks for.
+// ---------------------------------------------------------------------------------------------
+struct XorShiftS(u64);
+impl XorShiftS {
+    fn next(&mut self) -> u64 { self.0 ^= self.0 << 13; self.0 ^= self.0 >> 7; self.0 ^= self.0 << 17; self.0 }
+    fn below(&mut self, n: u64) -> u64 { self.next() % n }
+}
+
+#[async_test]
+async fn verif_model_syncer_batches() {
+    let seed: u64 = std::env::var("VERIF_SEED").ok().and_then(|s| s.parse().ok()).unwrap_or(0);
+    let rounds: u64 = std::env::var("VERIF_ROUNDS").ok().and_then(|s| s.parse().ok()).unwrap_or(40);
+    let mut generator = ExtendedHeaderGenerator::new();
+    let n = 900u64;
+    let headers = generator.next_many(n);
+    let mut checked = 0u64;
+    for round in 0..rounds {
+        let mut rng = XorShiftS(0xBF58476D1CE4E5B9 ^ seed.wrapping_mul(5381).wrapping_add(round + 1));
+        let (mock, mut _handle) = P2p::mocked();
+        _handle.announce_peer_connected();
+        let store = Arc::new(InMemoryStore::new());
+        let events = EventChannel::new();
+        let (_cmd_tx, cmd_rx) = mpsc::channel(4);
+        let batch_size = [16u64, 64, 512][rng.below(3) as usize];
+        let mut worker = Worker::new(SyncerArgs { p2p: Arc::new(mock), store: store.clone(), event_pub: events.publisher(), batch_size, sampling_window: SAMPLING_WINDOW, pruning_window: DEFAULT_PRUNING_WINDOW }, CancellationToken::new(), cmd_rx).unwrap();
+        // stored run [lo ..= hi]
+        let hi = 100 + rng.below(n - 100);
+        let lo = 1 + rng.below(hi);
+        store.insert(headers[(lo - 1) as usize..hi as usize].to_vec()).await.unwrap();
+        // pruning: low edge / middle / both / none
+        let mode = rng.below(4);
+        if mode == 0 || mode == 2 { for h in lo..=(lo + rng.below(20)).min(hi - 1) { store.remove_height(h).await.unwrap(); } }
+        if mode == 1 || mode == 2 { let a = lo + (hi - lo) / 2; for h in a..=(a + rng.below(20)).min(hi - 1) { let _ = store.remove_height(h).await; } }
+        // the network head: the stored head, or above it
+        let net_head = if rng.below(2) == 0 { hi } else { (hi + 1 + rng.below(700)).min(u64::MAX - 1) };
+        worker.subjective_head_height = Some(net_head);
+        let stored: std::collections::BTreeSet<u64> = store.get_stored_header_ranges().await.unwrap().into_inner().into_iter().flatten().collect();
+        let pruned: std::collections::BTreeSet<u64> = store.get_pruned_ranges().await.unwrap().into_inner().into_iter().flatten().collect();
+        let synced_lo = lo; // stored and pruned together are the run lo..=hi
+        let want: Option<(u64, u64)> = if net_head > hi { Some((hi + 1, (hi + batch_size).min(net_head))) }
+            else if synced_lo > 1 { Some((synced_lo.saturating_sub(batch_size).max(1), synced_lo - 1)) } else { None };
+        worker.fetch_next_batch().await.unwrap();
+        let got = worker.ongoing_batch.range.clone();
+        let ctx = format!("seed {seed}, round {round}, stored {}, pruned {}, network head {net_head}, batch size {batch_size}", store.get_stored_header_ranges().await.unwrap(), store.get_pruned_ranges().await.unwrap());
+        if let Some(r) = &got {
+            for x in r.clone() {
+                if stored.contains(&x) || pruned.contains(&x) { println!("WITNESS C24: the syncer scheduled {}..={} which contains height {x}, which is {} ({ctx})", r.start(), r.end(), if stored.contains(&x) { "stored" } else { "pruned" }); panic!("witness"); }
+            }
+            if r.end() - r.start() + 1 > batch_size || *r.end() > net_head { println!("WITNESS C24: the syncer scheduled {}..={} ({ctx})", r.start(), r.end()); panic!("witness"); }
+        }
+        match (want, &got) {
+            (Some((ws, we)), Some(r)) => if (*r.start(), *r.end()) != (ws, we) { println!("WITNESS C24: the syncer scheduled {}..={} but the batch that extends the stored data is {ws}..={we} ({ctx})", r.start(), r.end()); panic!("witness"); },
+            (None, Some(r)) => { println!("WITNESS C24: the syncer scheduled {}..={} although nothing is missing ({ctx})", r.start(), r.end()); panic!("witness"); }
+            _ => {}
+        }
+        if got.is_some() { checked += 1; }
+    }
+    println!("ENUM-OK cases={checked}");
+}
